@@ -18,6 +18,9 @@ use soroban_sdk::{Address, Bytes, BytesN, IntoVal, String as SStr, TryFromVal, V
 use soroban_token_sdk::metadata::TokenMetadata;
 use std::collections::BTreeMap;
 
+/// amounts whose low 64 (or 32) bits look like a small positive number
+pub const WIDE: [i128; 7] = [(1i128 << 64) + 5, -(1i128 << 64) + 7, i128::MIN + 9, i128::MAX, (1i128 << 32) + 3, (1i128 << 96) + 1, -(1i128 << 32) + 2];
+
 pub const NP: usize = 7; // 0 owner, 1 collector, 2-3 spenders, 4-5 receivers, 6 stranger
 const STRANGER: usize = 6;
 pub const NTOK: usize = 3; // SAC, interchain token, probe token that refuses receiver p5
@@ -40,6 +43,8 @@ pub enum SAmt {
     BalancePlus1,
     Held,
     HeldPlus1,
+    /// an amount outside the range of narrower integer types: see WIDE
+    Wide(u8),
 }
 
 #[derive(Serialize, Deserialize, Clone, Debug, PartialEq, Eq, Hash)]
@@ -109,6 +114,7 @@ impl SExec {
             SAmt::BalancePlus1 => b + 1,
             SAmt::Held => self.m.held[t],
             SAmt::HeldPlus1 => self.m.held[t] + 1,
+            SAmt::Wide(k) => WIDE[*k as usize % WIDE.len()],
         }
     }
 
@@ -174,7 +180,7 @@ impl SExec {
                 let tok = Token { address: self.tokens[t].clone(), amount: a };
                 let id = if let SOp::Refund { msg_id, .. } = op { msg_id.resolve() } else { String::new() };
                 let args: SVec<Val> = if is_collect { (self.p[ri].clone(), tok.clone()).into_val(&env) } else { (SStr::from_str(&env, &id), self.p[ri].clone(), tok.clone()).into_val(&env) };
-                let alt: SVec<Val> = if is_collect { (self.p[ri].clone(), Token { address: self.tokens[t].clone(), amount: a + 1 }).into_val(&env) } else { (SStr::from_str(&env, &id), self.p[(ri + 1) % NP].clone(), tok.clone()).into_val(&env) };
+                let alt: SVec<Val> = if is_collect { (self.p[ri].clone(), Token { address: self.tokens[t].clone(), amount: a.wrapping_add(1) }).into_val(&env) } else { (SStr::from_str(&env, &id), self.p[(ri + 1) % NP].clone(), tok.clone()).into_val(&env) };
                 let col = self.m.collector;
                 let c = AuthCtx { right: col, former: None, other_role: if self.m.owner != col { self.m.owner } else { STRANGER }, counterparty: ri, owner: if self.m.owner != col { self.m.owner } else { STRANGER }, stranger: STRANGER };
                 if auth.is_fault() {
@@ -306,6 +312,7 @@ impl SExec {
             SAmt::Lit(v) => *v as i128,
             SAmt::Held | SAmt::Balance => self.m.held[t],
             SAmt::HeldPlus1 | SAmt::BalancePlus1 => self.m.held[t] + 1,
+            SAmt::Wide(k) => WIDE[*k as usize % WIDE.len()],
         };
         let tok = Token { address: self.tokens[t].clone(), amount: a };
         let args: SVec<Val> = if is_collect { (gas.clone(), tok).into_val(&env) } else { (SStr::from_str(&env, "0xaa-0"), gas.clone(), tok).into_val(&env) };
@@ -367,7 +374,7 @@ impl SExec {
                 let full = match auth {
                     AuthVar::RootOnly => false,
                     _ => {
-                        let x: SVec<Val> = if other { (self.p[si].clone(), self.gas.clone(), a + 1).into_val(&env) } else { xfer.clone() };
+                        let x: SVec<Val> = if other { (self.p[si].clone(), self.gas.clone(), a.wrapping_add(1)).into_val(&env) } else { xfer.clone() };
                         root = root.with(AuthNode::new(&self.tokens[t], "transfer", x));
                         !other
                     }
@@ -468,8 +475,8 @@ impl World for WorldS {
         for _ in 0..n {
             let fault = f_auth && rng.chance(1, if p.focus == "C14" { 5 } else { 2 });
             let abort = opt_abort(rng, f_abort, 120);
-            let inamt = |rng: &mut Rng| match rng.weighted(&[2, 2, 10, 3, 3]) { 0 => SAmt::Zero, 1 => SAmt::Neg, 2 => SAmt::Lit(rng.range(1, 500) as i64), 3 => SAmt::Balance, _ => SAmt::BalancePlus1 };
-            let outamt = |rng: &mut Rng| match rng.weighted(&[2, 2, 8, 4, 4]) { 0 => SAmt::Zero, 1 => SAmt::Neg, 2 => SAmt::Lit(rng.range(1, 300) as i64), 3 => SAmt::Held, _ => SAmt::HeldPlus1 };
+            let inamt = |rng: &mut Rng| match rng.weighted(&[2, 2, 10, 3, 3, 2]) { 0 => SAmt::Zero, 1 => SAmt::Neg, 2 => SAmt::Lit(rng.range(1, 500) as i64), 3 => SAmt::Balance, 4 => SAmt::BalancePlus1, _ => SAmt::Wide(rng.below(7) as u8) };
+            let outamt = |rng: &mut Rng| match rng.weighted(&[2, 2, 8, 4, 4, 2]) { 0 => SAmt::Zero, 1 => SAmt::Neg, 2 => SAmt::Lit(rng.range(1, 300) as i64), 3 => SAmt::Held, 4 => SAmt::HeldPlus1, _ => SAmt::Wide(rng.below(7) as u8) };
             let op = match rng.weighted(&w) {
                 0 => SOp::PayGas {
                     spender: if rng.chance(1, 15) { 200 } else { rng.range(2, 3) as u8 }, token: rng.below(3) as u8, amount: inamt(rng), sender: rng.below(NP as u64) as u8,
